@@ -50,6 +50,10 @@ impl Logger for McLogger {
 		if self.keep == 0 {
 			return;
 		}
+		if std::env::var("MC_LOG").map(|v| v == "print").unwrap_or(false) {
+			eprintln!("      [{}] {:?} {}:{} {}", self.tag as char, r.level, r.module_path, r.line, r.args);
+			return;
+		}
 		let mut g = self.ring.lock().unwrap();
 		if g.len() >= self.keep {
 			g.pop_front();
